@@ -24,15 +24,17 @@ Definition to_native (w : Z) : Z := w / WEI.
 
 (** ** Backing keeper (x/evm/keeper/statedb.go): auth account + bank balance + AccState *)
 Record kacct := { ka_bal : Z (* unibi *); ka_nonce : Z; ka_code : Z }.
-Record keeper := { k_acct : addr -> option kacct; k_stor : addr -> key -> word }.
+(** [k_code]: the ContractBytecode table, keyed by code hash and SHARED by all accounts with that code *)
+Record keeper := { k_acct : addr -> option kacct; k_stor : addr -> key -> word; k_code : Z -> bool }.
 
-Definition empty_keeper : keeper := {| k_acct := fun _ => None; k_stor := fun _ _ => 0 |}.
+Definition empty_keeper : keeper := {| k_acct := fun _ => None; k_stor := fun _ _ => 0; k_code := fun _ => false |}.
 
 (** ** stateObject (state_object.go) *)
 Record obj := {
   bal : Z;                       (* account.BalanceWei *)
   nonce : Z;
   chash : Z;                     (* account.CodeHash (= the code, content addressed) *)
+  dcode : bool;                  (* DirtyCode *)
   suicided : bool;
   origin : key -> option word;   (* OriginStorage *)
   dirty : key -> option word;    (* DirtyStorage *)
@@ -40,27 +42,27 @@ Record obj := {
 }.
 
 Definition new_obj (b n c : Z) : obj :=
-  {| bal := b; nonce := n; chash := c; suicided := false;
+  {| bal := b; nonce := n; chash := c; dcode := false; suicided := false;
      origin := fun _ => None; dirty := fun _ => None; dkeys := [] |}.
 
 Definition with_bal (o : obj) (b : Z) : obj :=
-  {| bal := b; nonce := nonce o; chash := chash o; suicided := suicided o;
+  {| bal := b; nonce := nonce o; chash := chash o; dcode := dcode o; suicided := suicided o;
      origin := origin o; dirty := dirty o; dkeys := dkeys o |}.
 Definition with_nonce (o : obj) (n : Z) : obj :=
-  {| bal := bal o; nonce := n; chash := chash o; suicided := suicided o;
+  {| bal := bal o; nonce := n; chash := chash o; dcode := dcode o; suicided := suicided o;
      origin := origin o; dirty := dirty o; dkeys := dkeys o |}.
 Definition with_code (o : obj) (c : Z) : obj :=
-  {| bal := bal o; nonce := nonce o; chash := c; suicided := suicided o;
+  {| bal := bal o; nonce := nonce o; chash := c; dcode := true (* setCode: DirtyCode = true *); suicided := suicided o;
      origin := origin o; dirty := dirty o; dkeys := dkeys o |}.
 Definition with_suicided (o : obj) (b : bool) : obj :=
-  {| bal := bal o; nonce := nonce o; chash := chash o; suicided := b;
+  {| bal := bal o; nonce := nonce o; chash := chash o; dcode := dcode o; suicided := b;
      origin := origin o; dirty := dirty o; dkeys := dkeys o |}.
 Definition with_dirty (o : obj) (k : key) (v : word) : obj :=
-  {| bal := bal o; nonce := nonce o; chash := chash o; suicided := suicided o;
+  {| bal := bal o; nonce := nonce o; chash := chash o; dcode := dcode o; suicided := suicided o;
      origin := origin o; dirty := upd (dirty o) k (Some v);
      dkeys := match dirty o k with Some _ => dkeys o | None => k :: dkeys o end |}.
 Definition with_origin (o : obj) (k : key) (v : word) : obj :=
-  {| bal := bal o; nonce := nonce o; chash := chash o; suicided := suicided o;
+  {| bal := bal o; nonce := nonce o; chash := chash o; dcode := dcode o; suicided := suicided o;
      origin := upd (origin o) k (Some v); dirty := dirty o; dkeys := dkeys o |}.
 
 (** ** journal entries (journal.go) *)
@@ -417,14 +419,18 @@ Fixpoint run (ops : list op) (f : full) : full * list ret :=
 Definition nodup_z (l : list Z) : list Z := nodup Z.eq_dec l.
 
 Definition kset_acct (k : keeper) (a : addr) (v : option kacct) : keeper :=
-  {| k_acct := upd (k_acct k) a v; k_stor := k_stor k |}.
+  {| k_acct := upd (k_acct k) a v; k_stor := k_stor k; k_code := k_code k |}.
 Definition kset_stor (k : keeper) (a : addr) (ky : key) (v : word) : keeper :=
-  {| k_acct := k_acct k; k_stor := upd (k_stor k) a (upd (k_stor k a) ky v) |}.
-(** Keeper.DeleteAccount: balance, storage and auth account removed (nothing when there is no account) *)
+  {| k_acct := k_acct k; k_stor := upd (k_stor k) a (upd (k_stor k a) ky v); k_code := k_code k |}.
+(** Keeper.SetCode: store the bytecode under its hash (empty code: nothing to store) *)
+Definition kset_code (k : keeper) (h : Z) : keeper :=
+  {| k_acct := k_acct k; k_stor := k_stor k; k_code := upd (k_code k) h true |}.
+(** Keeper.DeleteAccount: balance, storage and auth account removed (nothing when there is no account);
+    the bytecode table is NOT touched — other accounts may share the code *)
 Definition kdelete (k : keeper) (a : addr) : keeper :=
   match k_acct k a with
   | None => k
-  | Some _ => {| k_acct := upd (k_acct k) a None; k_stor := upd (k_stor k) a (fun _ => 0) |}
+  | Some _ => {| k_acct := upd (k_acct k) a None; k_stor := upd (k_stor k) a (fun _ => 0); k_code := k_code k |}
   end.
 
 (** Go: [obj.OriginStorage[key]] — a plain map read, the zero hash when the key is not cached *)
@@ -434,7 +440,9 @@ Definition origin_or_zero (o : obj) (k : key) : word :=
 Definition commit_obj (k : keeper) (a : addr) (o : obj) : keeper :=
   if suicided o then kdelete k a
   else
-    let k1 := kset_acct k a (Some {| ka_bal := to_native (bal o); ka_nonce := nonce o; ka_code := chash o |}) in
+    (* obj.code != nil && obj.DirtyCode *)
+    let k0 := if dcode o && negb (chash o =? 0) then kset_code k (chash o) else k in
+    let k1 := kset_acct k0 a (Some {| ka_bal := to_native (bal o); ka_nonce := nonce o; ka_code := chash o |}) in
     fold_left (fun k ky =>
                  match dirty o ky with
                  | Some v => if v =? origin_or_zero o ky then k else kset_stor k a ky v
